@@ -113,3 +113,165 @@ Corollary local_tick_future_untouched s scan t k now :
   (forall w, In ((w, t, k), tt) (tidx s) -> scan < w) ->
   read Local (local_tick s scan) now t k = read Local s now t k.
 Proof. intros H. apply local_tick_invisible. intros (w & Hin & Hw). specialize (H w Hin). lia. Qed.
+
+(* ---------- local deletion: index entries are exactly the expiries that were asked for ---------- *)
+Definition requested (ts : Z) (c : cmd) (e : tkey * unit) : Prop :=
+  match c with
+  | CSetEx k d _ => e = ((d + sec ts, TK, k), tt)
+  | CExpire TK k d => e = ((sec ts + d, TK, k), tt)
+  | CExpire t k d => e = ((d + sec ts, t, k), tt)
+  | _ => False
+  end.
+
+Lemma In_adel {K V} (eqb : K -> K -> bool) k (l : list (K * V)) e : In e (adel eqb k l) -> In e l.
+Proof. induction l as [|[a v] l IH]; simpl; auto. destruct (eqb k a); simpl; intros H; auto. destruct H; auto. Qed.
+Lemma In_tidx_add s w t k e : In e (tidx (tidx_add s w t k)) -> e = ((w, t, k), tt) \/ In e (tidx s).
+Proof. unfold tidx_add, aset. cbn [tidx]. intros [<- | H]; auto. right. eapply In_adel; eauto. Qed.
+
+Lemma tidx_incr_size s t k h ud d : tidx (incr_size s t k h ud d) = tidx s.
+Proof. unfold incr_size. destruct (size_of ud + d <=? 0); reflexivity. Qed.
+Lemma tidx_fold {A} (f : store -> A -> store) l : (forall st a, tidx (f st a) = tidx st) -> forall s, tidx (fold_left f l s) = tidx s.
+Proof. intros H. induction l as [|a l IH]; intros s; simpl; auto. now rewrite IH, H. Qed.
+Lemma tidx_put_seq k ver vs : forall seq delta s s', put_seq s k ver seq delta vs = Some s' -> tidx s' = tidx s.
+Proof.
+  induction vs as [|v vs IH]; intros seq delta s s' H; simpl in H.
+  - now inversion H.
+  - destruct (el_get s TL k ver (SI seq)); [discriminate|]. now rewrite (IH _ _ _ _ H).
+Qed.
+Lemma tidx_list_set_meta s k h hd tl s' : list_set_meta s k h hd tl = Some s' -> tidx s' = tidx s.
+Proof.
+  unfold list_set_meta. destruct (tl - hd + 1 <? 0); [discriminate|]. destruct (tl - hd + 1 =? 0); intros X; now inversion X.
+Qed.
+Lemma tidx_coll_rem s ts t k ms : tidx (fst (coll_rem Local s ts t k ms)) = tidx s.
+Proof.
+  unfold coll_rem. destruct ms; auto. destruct (coll_header Local s ts t k) as [[h ud] ex]. destruct ex; auto.
+  cbn [fst]. rewrite tidx_incr_size. now apply tidx_fold.
+Qed.
+Lemma tidx_do_hset s ts k f v nx : tidx (fst (do_hset Local s ts k f v nx)) = tidx s.
+Proof.
+  unfold do_hset. destruct (coll_prepare Local s ts TH k) as [[h ud] ex].
+  destruct (el_get s TH k (h_ver h) (SB f)); [destruct nx|]; cbn [fst]; auto.
+  unfold el_put. cbn [tidx]. apply tidx_incr_size.
+Qed.
+Lemma tidx_kv_reset s ts k v ttl s' e : kv_reset Local s ts k v ttl = Some s' -> In e (tidx s') ->
+  In e (tidx s) \/ (0 < ttl /\ e = ((ttl + sec ts, TK, k), tt)).
+Proof.
+  unfold kv_reset. destruct (ttl <=? 0) eqn:E; intros X; inversion X; subst; cbn [tidx kv_put]; auto.
+  intros H. apply In_tidx_add in H as [-> | H]; auto. right. split; auto. lia.
+Qed.
+Lemma tidx_do_mset ts kvl : forall s, tidx (do_mset Local s ts kvl) = tidx s.
+Proof. induction kvl as [|[a b] kvl IH]; intros s; simpl; auto. now rewrite IH. Qed.
+
+Theorem local_index_provenance s ts c e :
+  In e (tidx (fst (step Local s ts c))) -> In e (tidx s) \/ requested ts c e.
+Proof.
+  destruct c; cbn [step requested].
+  - (* set *) unfold do_set. cbn. auto.
+  - (* setex *) unfold do_setex. destruct (dur <=? 0); cbn [fst]; auto.
+    destruct (kv_reset Local s ts k v dur) eqn:R; cbn [fst]; auto.
+    intros H. destruct (tidx_kv_reset _ _ _ _ _ _ _ R H) as [|[_ ->]]; auto.
+  - (* setnx *) unfold do_setnx. destruct (kv_prepare Local s ts k) as [[h ov] ex]. destruct (kv_cur ov ex); cbn; auto.
+  - (* getset *) unfold do_getset. destruct (kv_raw Local s ts k) as [[h ov] ex]. cbn. auto.
+  - (* mset *) destruct kvl; cbn [fst]; auto. rewrite tidx_do_mset. auto.
+  - (* incrby *) unfold do_incrby. destruct (kv_prepare Local s ts k) as [[h ov] ex].
+    destruct (match kv_cur ov ex with Some b => parse_int b | None => Some 0 end); cbn [fst]; auto.
+    destruct (in_int64 (z + d)); cbn [fst]; auto.
+  - (* append *) unfold do_append. destruct (kv_prepare Local s ts k) as [[h ov] ex].
+    destruct v, (kv_cur ov ex); cbn [fst]; auto;
+      match goal with |- context [if ?c then _ else _] => destruct c end; cbn [fst]; auto.
+  - (* setrange *) unfold do_setrange. destruct v.
+    + destruct (kv_raw Local s ts k) as [[h ov] ex]. cbn [fst]; auto.
+    + match goal with |- context [if ?c then _ else _] => destruct c end; cbn [fst]; auto.
+      destruct (kv_prepare Local s ts k) as [[h ov] ex]. cbn [fst]; auto.
+  - (* del *) unfold do_del. cbn [fst]. rewrite tidx_fold; auto.
+  - (* expire *) unfold do_expire. destruct t.
+    + unfold kv_set_expire. destruct (kv_raw Local s ts k) as [[h ov] ex]. destruct ov; cbn [fst]; auto.
+      destruct ex; cbn [fst]; auto. destruct (sec ts + dur =? 0); cbn [fst]; auto.
+      intros H. apply In_tidx_add in H as [-> | H]; auto.
+    + unfold coll_set_expire. destruct (coll_header Local s ts TH k) as [[h ud] ex]. destruct ud as [[a b]|]; cbn [fst]; auto.
+      destruct ex; cbn [fst]; auto. destruct (dur + sec ts =? 0); cbn [fst]; auto.
+      intros H. apply In_tidx_add in H as [-> | H]; auto.
+    + unfold coll_set_expire. destruct (coll_header Local s ts TS k) as [[h ud] ex]. destruct ud as [[a b]|]; cbn [fst]; auto.
+      destruct ex; cbn [fst]; auto. destruct (dur + sec ts =? 0); cbn [fst]; auto.
+      intros H. apply In_tidx_add in H as [-> | H]; auto.
+    + unfold coll_set_expire. destruct (coll_header Local s ts TZ k) as [[h ud] ex]. destruct ud as [[a b]|]; cbn [fst]; auto.
+      destruct ex; cbn [fst]; auto. destruct (dur + sec ts =? 0); cbn [fst]; auto.
+      intros H. apply In_tidx_add in H as [-> | H]; auto.
+    + unfold coll_set_expire. destruct (coll_header Local s ts TL k) as [[h ud] ex]. destruct ud as [[a b]|]; cbn [fst]; auto.
+      destruct ex; cbn [fst]; auto. destruct (dur + sec ts =? 0); cbn [fst]; auto.
+      intros H. apply In_tidx_add in H as [-> | H]; auto.
+  - (* persist: not supported under local deletion *) unfold do_persist. destruct t.
+    + unfold kv_set_expire. destruct (kv_raw Local s ts k) as [[h ov] ex]. destruct ov; cbn [fst]; auto. destruct ex; cbn [fst]; auto.
+    + unfold coll_set_expire. destruct (coll_header Local s ts TH k) as [[h ud] ex]. destruct ud as [[a b]|]; cbn [fst]; auto. destruct ex; cbn [fst]; auto.
+    + unfold coll_set_expire. destruct (coll_header Local s ts TS k) as [[h ud] ex]. destruct ud as [[a b]|]; cbn [fst]; auto. destruct ex; cbn [fst]; auto.
+    + unfold coll_set_expire. destruct (coll_header Local s ts TZ k) as [[h ud] ex]. destruct ud as [[a b]|]; cbn [fst]; auto. destruct ex; cbn [fst]; auto.
+    + unfold coll_set_expire. destruct (coll_header Local s ts TL k) as [[h ud] ex]. destruct ud as [[a b]|]; cbn [fst]; auto. destruct ex; cbn [fst]; auto.
+  - (* clear *) destruct t; cbn [fst]; auto; unfold coll_clear;
+      match goal with |- context [coll_header ?p ?s ?ts ?t ?k] => destruct (coll_header p s ts t k) as [[h ud] ex] end;
+      destruct (not_exist_or_expired ud ex); cbn [fst]; auto;
+      match goal with |- context [if ?c then _ else _] => destruct c end; cbn [fst]; auto.
+  - (* hset *) rewrite tidx_do_hset. auto.
+  - (* hmset *) unfold do_hmset. destruct fvl; cbn [fst]; auto. destruct (coll_prepare Local s ts TH k) as [[h ud] ex]. cbn [fst].
+    rewrite tidx_incr_size, tidx_fold; auto.
+  - (* hdel *) rewrite tidx_coll_rem. auto.
+  - (* hincrby *) unfold do_hincrby.
+    match goal with |- context [match ?x with Some n => _ | None => (s, RErr) end] => destruct x end; cbn [fst]; auto.
+    destruct (in_int64 (z + d)); cbn [fst]; auto. rewrite tidx_do_hset. auto.
+  - (* sadd *) unfold do_sadd. destruct (coll_prepare Local s ts TS k) as [[h ud] ex]. cbn [fst]. rewrite tidx_incr_size, tidx_fold; auto.
+  - (* srem *) rewrite tidx_coll_rem. auto.
+  - (* spop *) unfold do_spop. destruct (n >? max_batch_num); cbn [fst]; auto. destruct (n <=? 0); cbn [fst]; auto.
+    destruct (coll_header Local s ts TS k) as [[h ud] ex]. destruct (not_exist_or_expired ud ex); cbn [fst]; auto.
+    destruct (size_of ud =? 0); cbn [fst]; auto. rewrite tidx_coll_rem. auto.
+  - (* zadd *) unfold do_zadd. destruct sml; cbn [fst]; auto. destruct (coll_prepare Local s ts TZ k) as [[h ud] ex]. cbn [fst].
+    rewrite tidx_incr_size, tidx_fold; auto.
+  - (* zincrby *) unfold do_zincrby. destruct (coll_prepare Local s ts TZ k) as [[h ud] ex].
+    destruct (el_get s TZ k (h_ver h) (SB m)); cbn [fst]; auto. unfold el_put. cbn [tidx]. rewrite tidx_incr_size. auto.
+  - (* zrem *) rewrite tidx_coll_rem. auto.
+  - (* zremrangebyscore *) unfold do_zremrangebyscore. destruct (coll_header Local s ts TZ k) as [[h ud] ex].
+    destruct ex; cbn [fst]; auto. destruct (size_of ud =? 0); cbn [fst]; auto. rewrite tidx_incr_size, tidx_fold; auto.
+  - (* lpush *) unfold do_lpush. destruct (Z.of_nat (length vs) >? max_batch_num); cbn [fst]; auto.
+    destruct (coll_prepare Local s ts TL k) as [[h ud] ex]. destruct (list_meta_of ud) as [[hd0 tl0] size].
+    destruct vs; cbn [fst]; auto.
+    match goal with |- context [if ?c then _ else _] => destruct c end; cbn [fst]; auto.
+    match goal with |- context [put_seq ?a ?b ?c ?d ?e ?f] => destruct (put_seq a b c d e f) as [s1|] eqn:PS end; cbn [fst]; auto.
+    match goal with |- context [list_set_meta ?a ?b ?c ?d ?e] => destruct (list_set_meta a b c d e) as [s2|] eqn:LS end; cbn [fst]; auto.
+    rewrite (tidx_list_set_meta _ _ _ _ _ _ LS), (tidx_put_seq _ _ _ _ _ _ _ PS). auto.
+  - (* lpop *) unfold do_lpop. destruct (coll_header Local s ts TL k) as [[h ud] ex].
+    destruct (not_exist_or_expired ud ex); cbn [fst]; auto. destruct (list_meta_of ud) as [[hd0 tl0] size].
+    destruct (size =? 0); cbn [fst]; auto.
+    destruct (el_get s TL k (h_ver h) (SI (if head then hd0 else tl0))); cbn [fst]; auto.
+    match goal with |- context [list_set_meta ?a ?b ?c ?d ?e] => destruct (list_set_meta a b c d e) as [s2|] eqn:LS end; cbn [fst]; auto.
+    rewrite (tidx_list_set_meta _ _ _ _ _ _ LS). auto.
+Qed.
+
+Lemma tidx_local_del_key s e e' : In e' (tidx (local_del_key s e)) -> In e' (tidx s).
+Proof.
+  destruct e as [[[w t] k] []]. unfold local_del_key. cbn [fst tidx]. intros H. apply In_adel in H.
+  destruct t; auto; destruct (meta_get s _ k); auto.
+Qed.
+Lemma tidx_local_tick s scan e : In e (tidx (local_tick s scan)) -> In e (tidx s).
+Proof.
+  unfold local_tick. generalize (filter (due scan) (tidx s)). intros l. revert s.
+  induction l as [|a l IH]; intros s H; simpl in *; auto. apply IH in H. eapply tidx_local_del_key; eauto.
+Qed.
+
+(* local-deletion traces: writes and ticks of the background deleter *)
+Inductive lop := LW (ts : Z) (c : cmd) | LT (scan : Z).
+Fixpoint lfinal (s : store) (ops : list lop) : store :=
+  match ops with
+  | [] => s
+  | LW ts c :: r => lfinal (fst (step Local s ts c)) r
+  | LT scan :: r => lfinal (local_tick s scan) r
+  end.
+(* every entry of the time index was asked for by an earlier SETEX / *EXPIRE, with when = floor(ts/1e9) + duration *)
+Theorem local_index_requested ops : forall s e, In e (tidx (lfinal s ops)) ->
+  In e (tidx s) \/ exists ts c, In (LW ts c) ops /\ requested ts c e.
+Proof.
+  induction ops as [|o ops IH]; intros s e H; simpl in *; auto. destruct o as [ts c | scan].
+  - destruct (IH _ _ H) as [H1 | (ts' & c' & I & Rq)].
+    + destruct (local_index_provenance s ts c e H1) as [|Rq]; auto. right. exists ts, c. auto.
+    + right. exists ts', c'. auto.
+  - destruct (IH _ _ H) as [H1 | (ts' & c' & I & Rq)].
+    + left. eapply tidx_local_tick; eauto.
+    + right. exists ts', c'. auto.
+Qed.
